@@ -74,7 +74,7 @@ impl Stage for EarlySearch {
         "early-search"
     }
     fn cases(&self, tier: Tier) -> u32 {
-        tier.pick(1500, 20_000)
+        tier.pick(1500, 100_000)
     }
     fn strategy(&self, _t: Tier) -> BoxedStrategy<Case> {
         let early = (prop_oneof![3 => Just(0u8), 2 => Just(1u8), 2 => Just(2u8), 1 => Just(3u8), 1 => Just(4u8), 3 => Just(5u8)], 0u16..3000, any::<bool>())
